@@ -79,6 +79,31 @@ Lemma maps_as_modelled :
   take_wf Gen.LocalMap.AssetMap_take = true.
 Proof. vm_compute. repeat split. Qed.
 
+(* clear: every shard is emptied, unconditionally (one plain loop over all shards); the local map
+   empties its one table; the caches' clear starts by clearing the map *)
+Definition clears_every_shard (f : fn_def) : bool :=
+  match fn_body f with
+  | [EFor (PIdent sh None) (ERef (EUnary "*" (EField (EPath ["self"]) "shards")))
+       [ESemi (EMethod (EMethod (EField (EPath [sh']) "0") "get_mut" []) "clear" [])]] => String.eqb sh sh'
+  | _ => false
+  end.
+Definition clears_its_table (f : fn_def) : bool :=
+  match fn_body f with
+  | [ESemi (EMethod (EMethod (EField (EPath ["self"]) "map") "get_mut" []) "clear" [])] => true
+  | _ => false
+  end.
+Definition cache_clear_wf (f : fn_def) : bool :=
+  match fn_body f with
+  | ESemi (EMethod (EField (EPath ["self"]) "assets") "clear" []) :: _ => true
+  | _ => false
+  end.
+Lemma clear_empties_the_whole_map :
+  clears_every_shard Gen.CacheMap.AssetMap_clear = true /\
+  clears_its_table Gen.LocalMap.AssetMap_clear = true /\
+  cache_clear_wf Gen.CacheMap.AssetCache_clear = true /\
+  cache_clear_wf Gen.LocalMap.LocalAssetCache_clear = true.
+Proof. vm_compute. repeat split. Qed.
+
 (* keys carry the id exactly as given (no normalisation anywhere), so the key a lookup builds and
    the key an insertion stored agree on equality, hash and shard for the same (id, type) *)
 Definition key_ctor_wf (f : fn_def) (typed : bool) : bool :=
